@@ -44,7 +44,7 @@ GRID = [0, 0, 0.5, 0.5, 1, 1, 1.5, 2, 3]
 
 
 def n_cases(tier):
-    return 500 if tier == 'quick' else 600
+    return 500 if tier == 'quick' else 3000
 
 
 def make_case(seed, index, tier):
